@@ -1110,6 +1110,12 @@ func TestVerifC18(t *testing.T) {
 	sim.Main(t, sim.Config{
 		Prop:     "C18",
 		Scenario: c18Scenario,
+		ExhaustLabels: func(tier string, ri int) []string {
+			if ri < len(c18Small) {
+				return []string{"mode", "scn", "preempt-bonus"}
+			}
+			return []string{"mode", "alphabet", "conf", "hosts", "op"}
+		},
 		ExhaustRoots: func(tier string) [][]int {
 			var roots [][]int
 			full := 0
